@@ -81,8 +81,8 @@ def items(tier: str, seed: int) -> list[Any]:
     cap = 3000 if quick else 40000
 
     def add(frames: list[tuple[str, int]], pname: str, seg: Any, b: int = bound, **kw: Any) -> None:
-        if seg == "bytes":
-            b = min(b, 1)  # one choice point per byte: bound 2 would square an already long menu
+        if seg == "bytes" or (isinstance(seg, tuple) and len(frames) >= 2):
+            b = min(b, 1)  # long menus (one choice point per byte) / very many scenarios (every split of 2-frame scripts): bound 1
         d = {"proto": "doip", "frames": frames, "program": PROGRAMS[pname] if pname else [], "seg": seg}
         d.update(kw)
         out.append((d, b, cap))
@@ -157,4 +157,4 @@ def finish(merged: Result, tier: str) -> dict[str, Any]:
     if c.get("conformance_disagreements") and not merged.violations:
         raise Broken(f"stream model disagrees with real sockets: {merged.notes.get('conformance_disagreement_samples', [])[:1]}")
     return {"conformance_replays": c.get("conformance_replays", 0), "exhaustive": capped == 0, "capped_scenarios": capped,
-            "deviation_bound": 1 if tier == "quick" else "2 for scripts of <= 2 frames, 1 for 3-frame scripts"}
+            "deviation_bound": 1 if tier == "quick" else "2 for scripts of <= 2 frames with coalesced / frame-aligned / single-frame split segmentation, 1 otherwise"}
